@@ -420,7 +420,7 @@ class MassBins:
         # Single number divided equally between break masses
         if isinstance(nbin_MS, int):
             # TODO breaks if nbins is dict
-            self._nbin_MS_each = _divide_bin_sizes(nbins, N_MS_breaks)
+            self._nbin_MS_each = _divide_bin_sizes(nbin_MS, N_MS_breaks)
 
         # List of bins between each break mass
         else:
